@@ -195,6 +195,16 @@ Section WithBunzip.
     if v =? 108 then Ok Linux else if v =? 119 then Ok Windows
     else if (v =? 109) || (v =? 111) then Ok Mac else Err UnknownEnumCast.
 
+  Definition parse_mod_data : R mod_data :=
+    let* link := read_cstr in
+    let* dl := read_cstr in
+    let* _nul := read_u8 in
+    let* version := read_u32 in
+    let* size := read_u32 in
+    let* mp := read_u8 in
+    let* dll := read_u8 in
+    ret (mk_mod link dl version size (mp =? 1) (dll =? 1)).
+
   Definition parse_goldsrc_info : R server_info :=
     let* _address := read_cstr in
     let* name := read_cstr in
@@ -213,16 +223,7 @@ Section WithBunzip.
     let* pw := read_u8 in
     let* im := read_u8 in
     let is_mod := im =? 1 in
-    let* mod_data := (if is_mod then
-                        let* link := read_cstr in
-                        let* dl := read_cstr in
-                        let* _nul := read_u8 in
-                        let* version := read_u32 in
-                        let* size := read_u32 in
-                        let* mp := read_u8 in
-                        let* dll := read_u8 in
-                        ret (Some (mk_mod link dl version size (mp =? 1) (dll =? 1)))
-                      else ret None) in
+    let* mod_data := (if is_mod then let* m := parse_mod_data in ret (Some m) else ret None) in
     let* vac := read_u8 in
     let* bots := read_u8 in
     ret (mk_info protocol name map folder game_mode 0 players max_players bots server_type
@@ -230,6 +231,16 @@ Section WithBunzip.
 
   Definition opt_read {A} (c : bool) (m : R A) : R (option A) :=
     if c then let* x := m in ret (Some x) else ret None.
+
+  (* the extra data fields selected by the flag byte *)
+  Definition parse_edf (value : N) : R extra_data :=
+    let* port := opt_read (N.testbit value 7) read_u16 in
+    let* steam_id := opt_read (N.testbit value 4) read_u64 in
+    let* tv_port := opt_read (N.testbit value 6) read_u16 in
+    let* tv_name := opt_read (N.testbit value 6) read_cstr in
+    let* keywords := opt_read (N.testbit value 5) read_cstr in
+    let* game_id := opt_read (N.testbit value 0) read_u64 in
+    ret (mk_extra port steam_id tv_port tv_name keywords game_id).
 
   Definition parse_source_info (e : engine) : R server_info :=
     let* protocol := read_u8 in
@@ -253,16 +264,10 @@ Section WithBunzip.
     fun b =>
       match read_u8 b with
       | (Ok value, b1) =>
-          (let* port := opt_read (N.testbit value 7) read_u16 in
-           let* steam_id := opt_read (N.testbit value 4) read_u64 in
-           let* tv_port := opt_read (N.testbit value 6) read_u16 in
-           let* tv_name := opt_read (N.testbit value 6) read_cstr in
-           let* keywords := opt_read (N.testbit value 5) read_cstr in
-           let* game_id := opt_read (N.testbit value 0) read_u64 in
-           let appid := match game_id with Some gid => gid mod 16777216 | None => appid16 end in
+          (let* ed := parse_edf value in
+           let appid := match ed_game_id ed with Some gid => gid mod 16777216 | None => appid16 end in
            ret (mk_info protocol name map folder game_mode appid players max_players bots server_type
-                        environment_type (pw =? 1) (vac =? 1) ship game_version
-                        (Some (mk_extra port steam_id tv_port tv_name keywords game_id)) false None)) b1
+                        environment_type (pw =? 1) (vac =? 1) ship game_version (Some ed) false None)) b1
       | (Err _, b1) =>
           (Ok (mk_info protocol name map folder game_mode appid16 players max_players bots server_type
                        environment_type (pw =? 1) (vac =? 1) ship game_version None false None), b1)
